@@ -1,7 +1,7 @@
 """C18: constants and saturating shape of the timestamp conversions (drift itself is not decided)."""
 import re
 
-from ..lib import cname, has_fact, short, symcalls
+from ..lib import cname, has_fact, interval_of, short, symcalls
 from ..sym import Sym
 
 EPOCH = 116444736000000000
@@ -37,8 +37,11 @@ def run(ctx):
     for op, truth, arg in (("checked_add", True, "(p1 Sub! %s).0" % E), ("checked_sub", False, "(%s Sub! p1).0" % E)):
         hits = [c for c in cs if c[1].endswith("SystemTime::" + op)]
         conv = [c for c in cs if c[1].endswith("timestamp_delta_to_duration") and c[2] == [arg]]
+        def side(b):
+            lo, hi, ex = interval_of(S.bool_facts_at(b), "p1")
+            return (lo is not None and lo >= EPOCH) if truth else (hi is not None and hi <= EPOCH)
         ok = len(hits) == 1 and "UNIX_EPOCH" in hits[0][2][0] and "timestamp_delta_to_duration" in hits[0][2][1] and len(conv) == 1 and \
-            has_fact(S, hits[0][0], r"^\(p1 Ge %s\)$" % re.escape(E), truth) and has_fact(S, conv[0][0], r"^\(p1 Ge %s\)$" % re.escape(E), truth)
+            side(hits[0][0]) and side(conv[0][0])
         ctx.check(ok, R, "to_system_time %s side" % op, "UNIX_EPOCH.%s(delta_to_duration(%s))" % (op, arg),
                   "the %s-1970 side is not UNIX_EPOCH.%s(timestamp_delta_to_duration(%s)) under `timestamp >= EPOCH` == %s" % (
                       "post" if truth else "pre", op, arg, truth), f.loc(), fn=f.name, key="%s|to|%s" % (R, op))
